@@ -292,35 +292,49 @@ theorem fio_resource {n rest : Str} (hn : isTupleNameStr n = true) (hr : stopB r
     alt_of_fails (tupleType_fails_head k (by simp [headAll, isUpper])),
     alt_of_ok (resourceType_ok hn hr)]
 
-theorem typeCycle_none {rest : Str} (hr : stopB rest = true) :
-    typeCycle ('^' :: rest) = .ok (.cycle none) rest := by
+/-- the digits behind `^` -/
+def printCycle : Option Nat → Str
+  | none => []
+  | some n => natDigits n
+
+theorem typeCycle_ok {l : Option Nat} (hl : ∀ n, l = some n → n < 2 ^ 64) {rest : Str}
+    (hr : stopB rest = true) : typeCycle ('^' :: (printCycle l ++ rest)) = .ok (.cycle l) rest := by
   unfold typeCycle
   rw [seq_ok (pchar_self _ _)]
-  have : Fails usize rest := by
-    refine ⟨rest, .digit, ?_⟩
-    have : rest.takeWhile isDigit = [] := by
-      cases rest with
-      | nil => rfl
-      | cons c t => simp [stopB_digit hr c t rfl]
-    simp [usize, this]
-  rw [pmap_ok (opt_of_fails this)]
+  cases l with
+  | none =>
+    have : Fails usize rest := by
+      refine ⟨rest, .digit, ?_⟩
+      have : rest.takeWhile isDigit = [] := by
+        cases rest with
+        | nil => rfl
+        | cons c t => simp [stopB_digit hr c t rfl]
+      simp [usize, this]
+    simp only [printCycle, List.nil_append]
+    rw [pmap_ok (opt_of_fails this)]
+  | some n =>
+    simp only [printCycle]
+    rw [pmap_ok (opt_ok (usize_append (hl n rfl) (stopB_digit hr)))]
 
-theorem base_cycle_none {rest : Str} (hr : stopB rest = true) :
-    baseTypeWith k ('^' :: rest) = .ok (.cycle none) rest := by
+theorem base_cycle {l : Option Nat} (hl : ∀ n, l = some n → n < 2 ^ 64) {rest : Str}
+    (hr : stopB rest = true) : baseTypeWith k ('^' :: (printCycle l ++ rest)) = .ok (.cycle l) rest := by
   unfold baseTypeWith
   rw [alt_of_fails (tupleType_fails_head k (by simp [headAll, isUpper])),
     alt_of_fails (partialType_fails_head k (by simp [headAll, isUpper])),
     alt_of_fails (resourceType_fails_head (by simp [headAll])),
-    alt_of_ok (typeCycle_none hr)]
+    alt_of_ok (typeCycle_ok hl hr)]
 
-theorem fio_cycle_none {rest : Str} (hr : stopB rest = true) :
-    functionIoType k ('^' :: rest) = .ok (.cycle none) rest := by
+theorem fio_cycle {l : Option Nat} (hl : ∀ n, l = some n → n < 2 ^ 64) {rest : Str}
+    (hr : stopB rest = true) : functionIoType k ('^' :: (printCycle l ++ rest)) = .ok (.cycle l) rest := by
   unfold functionIoType
   rw [alt_of_fails (partialType_fails_head k (by simp [headAll, isUpper])),
     alt_of_fails (groupType_fails_head k (by simp [headAll])),
     alt_of_fails (tupleType_fails_head k (by simp [headAll, isUpper])),
     alt_of_fails (resourceType_fails_head (by simp [headAll])),
-    alt_of_ok (typeCycle_none hr)]
+    alt_of_ok (typeCycle_ok hl hr)]
+
+theorem printTy_cycle (l : Option Nat) : printTy (.cycle l) = '^' :: printCycle l := by
+  cases l <;> simp [printTy, printCycle]
 
 end
 
@@ -332,12 +346,13 @@ mutual
     positional fields, function types and unions, nested without bound. -/
 def Ty.frag : Ty → Bool
   | .prim _ => true
-  | .ident n [] => !isPrimName n
-  | .cycle none => true
+  | .ident _ [] => true
+  | .cycle _ => true
   | .resource _ => true
   | .tuple _ fs false => Field.fragList fs
   | .func i o => i.frag && o.frag
   | .union ts => Ty.fragList ts
+  | .inter ts => Ty.fragList ts
   | _ => false
 def Ty.fragList : List Ty → Bool
   | [] => true
@@ -357,7 +372,7 @@ def Ty.lvA : Ty → Nat
   | .union ts => Ty.lvAList ts + 1
   | .tuple _ fs _ => Field.lvList fs + 1
   | .inter ts => Ty.lvAList ts + 1
-  | .ident _ args => Ty.lvAList args + 1
+  | .ident n args => if args.isEmpty && isPrimName n then 2 else Ty.lvAList args + 1
   | .proc a r => max (Ty.lvAOpt a) (Ty.lvAOpt r) + 1
   | .modty _ _ args => Ty.lvAList args + 1
   | .selfDefault args => Ty.lvAList args + 1
@@ -378,13 +393,34 @@ def Field.lvList : List Field → Nat
   | f :: fs => max f.lv (Field.lvList fs)
 end
 
+/-- knot levels needed to read the printed form of a type as a UNION MEMBER (intersection level) -/
+def Ty.lvM : Ty → Nat
+  | .inter ts => Ty.lvAList ts
+  | .ident _ [] => 1
+  | t => t.lvA
+
 /-- knot levels needed to read the printed form of a type at `type_definition` level -/
 def Ty.lvT : Ty → Nat
   | .func i o => max i.lvA o.lvA
-  | t => t.lvA
+  | t => t.lvM
+
+theorem Ty.lvM_le_lvA (t : Ty) : t.lvM ≤ t.lvA := by
+  cases t with
+  | ident n args =>
+    cases args with
+    | nil => simp only [Ty.lvM, Ty.lvA]; split <;> simp [Ty.lvAList]
+    | cons a as => simp [Ty.lvM]
+  | _ => simp [Ty.lvM, Ty.lvA]
 
 theorem Ty.lvT_le_lvA (t : Ty) : t.lvT ≤ t.lvA := by
-  cases t <;> simp [Ty.lvT, Ty.lvA]
+  cases t with
+  | func i o => simp [Ty.lvT, Ty.lvA]
+  | _ => simp only [Ty.lvT]; exact Ty.lvM_le_lvA _
+
+/-- an argument-less reference named like a primitive (printed `<'int>`, as an atom `(<'int>)`) -/
+def Ty.isPrimRef : Ty → Bool
+  | .ident n [] => isPrimName n
+  | _ => false
 
 /-- `k.td` rejects a text that starts with a closing bracket -/
 def KClose (k : Knot) : Prop := ∀ (c : Char) (s : Str), c = ']' ∨ c = ')' → Fails k.td (c :: s)
@@ -432,13 +468,11 @@ theorem printAtom_head {t : Ty} (hf : t.frag = true) (hw : t.wf = true) :
   | ident n args =>
     cases args with
     | nil =>
-      have : isPrimName n = false := by simpa [Ty.frag] using hf
-      exact ⟨'\'', _, by simp [printAtom, atomWrap, printTy, this]; rfl, rfl⟩
+      cases hp : isPrimName n with
+      | false => exact ⟨'\'', _, by simp [printAtom, atomWrap, printTy, hp]; rfl, rfl⟩
+      | true => exact ⟨'(', _, by simp [printAtom, atomWrap, printTy, hp]; rfl, rfl⟩
     | cons a as => simp [Ty.frag] at hf
-  | cycle l =>
-    cases l with
-    | none => exact ⟨'^', [], rfl, rfl⟩
-    | some n => simp [Ty.frag] at hf
+  | cycle l => exact ⟨'^', printCycle l, by show printTy (.cycle l) = _; exact printTy_cycle l, rfl⟩
   | resource n => exact ⟨'\\', n, rfl, rfl⟩
   | func i o => exact ⟨'(', _, by simp [printAtom, atomWrap]; rfl, rfl⟩
   | union ts => exact ⟨'(', _, by simp [printAtom, atomWrap, printTy]; rfl, rfl⟩
@@ -473,7 +507,7 @@ theorem printAtom_head {t : Ty} (hf : t.frag = true) (hw : t.wf = true) :
         | nil => exact ⟨c, r, by simp [printAtom, atomWrap, printTy, hl], by simp [atomHead, hc]⟩
         | cons f fs =>
           exact ⟨c, _, by simp [printAtom, atomWrap, printTy, hl]; rfl, by simp [atomHead, hc]⟩
-  | inter ts => simp [Ty.frag] at hf
+  | inter ts => exact ⟨'(', _, by simp [printAtom, atomWrap]; rfl, rfl⟩
   | proc a r => simp [Ty.frag] at hf
   | modty a b c => simp [Ty.frag] at hf
   | selfDefault a => simp [Ty.frag] at hf
@@ -512,33 +546,78 @@ theorem printMembersL_eq (ts : List Ty) : printMembersL ts = ts.map printMember 
   | nil => rfl
   | cons t ts ih => simp [printMembersL, printMember, ih]
 
-theorem printAtom_eq_printTy {t : Ty} (hf : t.frag = true) (hfn : ¬ ∃ i o, t = .func i o) :
-    printAtom t = printTy t := by
+theorem printAtomsL_eq (ts : List Ty) : printAtomsL ts = ts.map printAtom := by
+  induction ts with
+  | nil => rfl
+  | cons t ts ih => simp [printAtomsL, printAtom, ih]
+
+/-- outside function types, intersections and primitive-named references the three printed forms
+    coincide -/
+theorem printMember_eq_atom {t : Ty} (hf : t.frag = true) (hni : ∀ ts, t ≠ .inter ts)
+    (hnp : t.isPrimRef = false) : printMember t = printAtom t := by
   cases t with
   | ident n args =>
     cases args with
     | nil =>
-      have : isPrimName n = false := by simpa [Ty.frag] using hf
-      simp [printAtom, atomWrap, this]
+      have : isPrimName n = false := by simpa [Ty.isPrimRef] using hnp
+      simp [printMember, printAtom, memberWrap, atomWrap, this]
     | cons a as => simp [Ty.frag] at hf
+  | inter ts => exact absurd rfl (hni ts)
+  | _ => simp_all [printMember, printAtom, memberWrap, atomWrap, Ty.frag]
+
+theorem printTy_eq_member {t : Ty} (hfn : ¬ ∃ i o, t = .func i o) : printTy t = printMember t := by
+  cases t with
   | func i o => exact absurd ⟨i, o, rfl⟩ hfn
-  | inter ts => simp [Ty.frag] at hf
   | _ => rfl
 
+/-- the first character of a printed type -/
+def typeHead (c : Char) : Bool := atomHead c || c == '#' || c == '<'
+
+theorem printMember_head {t : Ty} (hf : t.frag = true) (hw : t.wf = true) :
+    ∃ c s, printMember t = c :: s ∧ typeHead c = true ∧ c ≠ '#' := by
+  by_cases hi : ∃ ts, t = .inter ts
+  · obtain ⟨ts, rfl⟩ := hi
+    simp only [Ty.frag] at hf
+    simp only [Ty.wf, Bool.and_eq_true, decide_eq_true_eq] at hw
+    cases ts with
+    | nil => simp at hw
+    | cons a as =>
+      simp only [Ty.fragList, Ty.wfList, Bool.and_eq_true] at hf hw
+      obtain ⟨c, s, hp, hc⟩ := printAtom_head hf.1 hw.2.1
+      refine ⟨c, s ++ ((as.map printAtom).map ([' ', '&', ' '] ++ ·)).flatten, ?_, by simp [typeHead, hc],
+        (atomHead_facts hc).1⟩
+      show printTy (.inter (a :: as)) = _
+      simp only [printTy]
+      rw [printAtomsL_eq, List.map_cons, sepBy_cons, hp]; simp
+  · by_cases hp : t.isPrimRef = true
+    · cases t with
+      | ident n args =>
+        cases args with
+        | nil =>
+          have : isPrimName n = true := by simpa [Ty.isPrimRef] using hp
+          exact ⟨'<', _, by simp [printMember, memberWrap, printTy, this]; rfl, by decide, by decide⟩
+        | cons a as => simp [Ty.isPrimRef] at hp
+      | _ => simp [Ty.isPrimRef] at hp
+    · obtain ⟨c, s, h1, h2⟩ := printAtom_head hf hw
+      refine ⟨c, s, ?_, by simp [typeHead, h2], (atomHead_facts h2).1⟩
+      rw [printMember_eq_atom hf (fun ts e => hi ⟨ts, e⟩) (by simpa using hp)]; exact h1
+
 theorem printTy_head {t : Ty} (hf : t.frag = true) (hw : t.wf = true) :
-    ∃ c s, printTy t = c :: s ∧ (atomHead c = true ∨ c = '#') := by
+    ∃ c s, printTy t = c :: s ∧ typeHead c = true := by
   by_cases hfn : ∃ i o, t = .func i o
   · obtain ⟨i, o, rfl⟩ := hfn
-    exact ⟨'#', _, by simp [printTy]; rfl, Or.inr rfl⟩
-  · obtain ⟨c, s, h1, h2⟩ := printAtom_head hf hw
-    exact ⟨c, s, by rw [← printAtom_eq_printTy hf hfn]; exact h1, Or.inl h2⟩
+    exact ⟨'#', _, by simp [printTy]; rfl, by decide⟩
+  · obtain ⟨c, s, h1, h2, _⟩ := printMember_head hf hw
+    exact ⟨c, s, by rw [printTy_eq_member hfn]; exact h1, h2⟩
 
-theorem typeHead_facts {c : Char} (h : atomHead c = true ∨ c = '#') :
+theorem typeHead_facts {c : Char} (h : typeHead c = true) :
     c ≠ '|' ∧ c ≠ '.' ∧ c ≠ '/' ∧ c ≠ '@' ∧ c ≠ ',' ∧ isLower c = false ∧ isMultispace c = false := by
-  rcases h with h | h
+  simp only [typeHead, Bool.or_eq_true, beq_iff_eq] at h
+  rcases h with (h | h) | h
   · have := atomHead_facts h
     exact ⟨this.2.1, this.2.2.1, this.2.2.2.1, this.2.2.2.2.1, this.2.2.2.2.2.1, this.2.2.2.2.2.2.1,
       this.2.2.2.2.2.2.2⟩
+  · subst h; decide
   · subst h; decide
 
 section
@@ -768,16 +847,6 @@ theorem frag_no_spread {fs : List Field} (hf : Field.fragList fs = true) :
     | field nm ty => simp [Field.isSpread, ih hf.2]
     | spread a b => simp [Field.frag] at hf
 
-theorem printMember_eq_atom {t : Ty} (hf : t.frag = true) : printMember t = printAtom t := by
-  cases t with
-  | ident n args =>
-    cases args with
-    | nil =>
-      have : isPrimName n = false := by simpa [Ty.frag] using hf
-      simp [printMember, printAtom, memberWrap, atomWrap, this]
-    | cons a as => simp [Ty.frag] at hf
-  | _ => simp_all [printMember, printAtom, memberWrap, atomWrap, Ty.frag]
-
 theorem barOp_step {c : Char} {X : Str} (hc : c = '|' ∨ c = '&')
     (h : headAll (fun c => !isMultispace c && c != '/') X = true) :
     barOp c (' ' :: c :: ' ' :: X) = .ok () X := by
@@ -893,16 +962,36 @@ theorem atom_ok {t : Ty} (hf : t.frag = true) (hw : t.wf = true) (hl : t.lvA ≤
     cases args with
     | cons a as => simp [Ty.frag] at hf
     | nil =>
-      have hnp : isPrimName n = false := by simpa [Ty.frag] using hf
       have hn : isIdentStr n = true := by simpa [Ty.wf, Ty.wfList] using hw
-      have hp : printAtom (.ident n []) ++ rest = '\'' :: (n ++ rest) := by
-        simp [printAtom, atomWrap, printTy, hnp, printTys, angle]
-      rw [hp, ← identifierToType_not_prim hnp]
-      exact ⟨base_ident k hn hr, fio_ident k hn hr⟩
+      cases hnp : isPrimName n with
+      | false =>
+        have hp : printAtom (.ident n []) ++ rest = '\'' :: (n ++ rest) := by
+          simp [printAtom, atomWrap, printTy, hnp, printTys, angle]
+        rw [hp, ← identifierToType_not_prim hnp]
+        exact ⟨base_ident k hn hr, fio_ident k hn hr⟩
+      | true =>
+        -- the atom form `(<'int>)`: grouping parentheses around the reference form
+        have hlt : (Ty.ident n []).lvT ≤ L := by
+          simp only [Ty.lvA, List.isEmpty_nil, hnp, Bool.and_self, if_true] at hl
+          simp only [Ty.lvT, Ty.lvM]; omega
+        have htd := hk.td (.ident n []) hf hw hlt (')' :: rest)
+          (stopTd_of_close _ (Or.inr (Or.inr rfl)))
+        have hpt : printTy (.ident n []) = '<' :: ('\'' :: n ++ ['>']) := by simp [printTy, hnp]
+        have hpa : printAtom (.ident n []) ++ rest =
+            '(' :: '<' :: (('\'' :: n ++ ['>']) ++ ')' :: rest) := by
+          simp [printAtom, atomWrap, hpt, hnp]
+        rw [hpa]
+        rw [hpt] at htd
+        exact paren_wrap hk (by decide) (by decide) (by decide) (by decide) (by decide)
+          (by simpa using htd)
   | cycle l =>
-    cases l with
-    | some n => simp [Ty.frag] at hf
-    | none => exact ⟨base_cycle_none k hr, fio_cycle_none k hr⟩
+    have hl : ∀ n, l = some n → n < 2 ^ 64 := by
+      intro n e; subst e; simpa [Ty.wf] using hw
+    have hp : printAtom (.cycle l) ++ rest = '^' :: (printCycle l ++ rest) := by
+      show printTy (.cycle l) ++ rest = _
+      rw [printTy_cycle]; rfl
+    rw [hp]
+    exact ⟨base_cycle k hl hr, fio_cycle k hl hr⟩
   | resource n =>
     have hn : isTupleNameStr n = true := by simpa [Ty.wf] using hw
     exact ⟨base_resource k hn hr, fio_resource k hn hr⟩
@@ -930,12 +1019,12 @@ theorem atom_ok {t : Ty} (hf : t.frag = true) (hw : t.wf = true) (hl : t.lvA ≤
     | nil => simp at hw
     | cons m ms =>
       simp only [Ty.fragList, Ty.wfList, Bool.and_eq_true] at hf hw
-      obtain ⟨c, s, hp, hc⟩ := printAtom_head hf.1 hw.2.1
-      have hfacts := atomHead_facts hc
+      obtain ⟨c, s, hp, hc, _⟩ := printMember_head hf.1 hw.2.1
+      have hfacts := typeHead_facts hc
       have hbare := hk.bare (m :: ms) (by simp [Ty.fragList, hf]) (by simp [Ty.wfList, hw.2]) hw.1
         (by simp only [Ty.lvA] at hl; omega) (')' :: rest) (stopTd_of_close _ (Or.inr (Or.inr rfl)))
       have hpm : printMembers (m :: ms) = c :: (s ++ ((ms.map printMember).map ([' ', '|', ' '] ++ ·)).flatten) := by
-        rw [printMembers, printMembersL_eq, List.map_cons, sepBy_cons, printMember_eq_atom hf.1, hp]
+        rw [printMembers, printMembersL_eq, List.map_cons, sepBy_cons, hp]
         simp
       have hpa : printAtom (.union (m :: ms)) ++ rest =
           '(' :: c :: ((s ++ ((ms.map printMember).map ([' ', '|', ' '] ++ ·)).flatten) ++ ')' :: rest) := by
@@ -943,9 +1032,21 @@ theorem atom_ok {t : Ty} (hf : t.frag = true) (hw : t.wf = true) (hl : t.lvA ≤
         rw [this, hpm]; simp
       rw [hpa]
       rw [hpm] at hbare
-      exact paren_wrap hk hfacts.2.2.2.2.1 hfacts.2.2.2.2.2.2.2 hfacts.2.2.2.1 hfacts.2.2.1
-        hfacts.2.2.2.2.2.2.1 (by simpa using hbare)
-  | inter ts => simp [Ty.frag] at hf
+      exact paren_wrap hk hfacts.2.2.2.1 hfacts.2.2.2.2.2.2 hfacts.2.2.1 hfacts.2.1
+        hfacts.2.2.2.2.2.1 (by simpa using hbare)
+  | inter ts =>
+    obtain ⟨c, s, hp, hc⟩ := printTy_head hf hw
+    have hlt : (Ty.inter ts).lvT ≤ L := by
+      simp only [Ty.lvA] at hl
+      simp only [Ty.lvT, Ty.lvM]; omega
+    have htd := hk.td (.inter ts) hf hw hlt (')' :: rest) (stopTd_of_close _ (Or.inr (Or.inr rfl)))
+    have hfacts := typeHead_facts hc
+    have hpa : printAtom (.inter ts) ++ rest = '(' :: c :: (s ++ ')' :: rest) := by
+      have : printAtom (.inter ts) = '(' :: (printTy (.inter ts) ++ [')']) := rfl
+      rw [this, hp]; simp
+    rw [hpa]
+    rw [hp] at htd
+    exact paren_wrap hk hfacts.2.2.2.1 hfacts.2.2.2.2.2.2 hfacts.2.2.1 hfacts.2.1 hfacts.2.2.2.2.2.1 htd
   | proc a r => simp [Ty.frag] at hf
   | modty a b c => simp [Ty.frag] at hf
   | selfDefault a => simp [Ty.frag] at hf
@@ -960,22 +1061,142 @@ theorem atom_tail_head {t : Ty} (hf : t.frag = true) (hw : t.wf = true) (tail : 
   rw [hp]
   simp [headAll, this.1, this.2.1, this.2.2.2.1, this.2.2.2.2.2.2.2]
 
+theorem member_tail_head {t : Ty} (hf : t.frag = true) (hw : t.wf = true) (tail : Str) :
+    headAll (fun c => !isMultispace c && c != '/') (printMember t ++ tail) = true ∧
+    headAll (· ≠ '#') (printMember t ++ tail) = true ∧
+    headAll (· ≠ '|') (printMember t ++ tail) = true := by
+  obtain ⟨c, s, hp, hc, hh⟩ := printMember_head hf hw
+  have := typeHead_facts hc
+  rw [hp]
+  simp [headAll, this.1, this.2.2.1, this.2.2.2.2.2.2, hh]
+
+theorem stopB_amp (s : Str) : stopB (' ' :: '&' :: s) = true := by
+  simp [stopB, headAll, contChar, isIdentBody, isLower, isUpper, isDigit, isMultispace]
+
+theorem amp_fails_close_or_stop {tail : Str} (h : stopTd tail = true) : Fails (barOp '&') tail :=
+  stopTd_bar h (Or.inr rfl)
+
+/-- `<'name>` at `base_type` level (the `type_parameter` arm) -/
+theorem base_typeParam (k : Knot) {n : Str} (hn : isIdentStr n = true) (tail : Str) :
+    baseTypeWith k ('<' :: '\'' :: (n ++ '>' :: tail)) = .ok (.ident n []) tail := by
+  have htn : typeName ('\'' :: (n ++ '>' :: tail)) = .ok n ('>' :: tail) := by
+    unfold typeName
+    rw [seq_ok (pchar_self _ _)]
+    exact identifier_append hn (by simp [IdStop, isIdentBody, isLower, isUpper, isDigit])
+  have htp : typeParameter ('<' :: '\'' :: (n ++ '>' :: tail)) = .ok (.ident n []) tail := by
+    unfold typeParameter delimited
+    rw [pmap_ok (a := n) (r := tail)]
+    rw [seq_ok (pchar_self _ _)]
+    exact before_ok htn (pchar_self _ _)
+  unfold baseTypeWith
+  rw [alt_of_fails (tupleType_fails_head k (by simp [headAll, isUpper])),
+    alt_of_fails (partialType_fails_head k (by simp [headAll, isUpper])),
+    alt_of_fails (resourceType_fails_head (by simp [headAll])),
+    alt_of_fails (typeCycle_fails_head (by simp [headAll])),
+    alt_of_fails (processType_fails_head k (by simp [headAll]) (by simp [headAll])),
+    alt_of_ok htp]
+
 section
 variable {k : Knot} {L : Nat} (hk : GoodK k L)
 include hk
 
-/-- an intersection-level member: one atom, no `&` behind it -/
-theorem inter_atom {t : Ty} (hf : t.frag = true) (hw : t.wf = true) (hl : t.lvA ≤ L + 1)
+/-- the `& atom` loop of an intersection -/
+theorem amp_loop : ∀ ms : List Ty, Ty.fragList ms = true → Ty.wfList ms = true →
+    Ty.lvAList ms ≤ L + 1 → ∀ tail : Str, stopB tail = true → Fails (barOp '&') tail →
+    many0 (seq (barOp '&') (baseTypeWith k))
+      ((ms.map ([' ', '&', ' '] ++ printAtom ·)).flatten ++ tail) = .ok ms tail := by
+  intro ms
+  induction ms with
+  | nil => intro _ _ _ tail _ ha; exact many0_of_fails (Fails.seq ha)
+  | cons m ms ih =>
+    intro hf hw hl tail hr ha
+    simp only [Ty.fragList, Ty.wfList, Bool.and_eq_true] at hf hw
+    have hl1 : m.lvA ≤ L + 1 := Nat.le_trans (Nat.le_max_left _ _) hl
+    have hl2 : Ty.lvAList ms ≤ L + 1 := Nat.le_trans (Nat.le_max_right _ _) hl
+    have sb := baseTypeWith_sound hk.sound
+    have sp : Sound (seq (barOp '&') (baseTypeWith k)) := Sound.seq (Sound.barOp _) sb
+    have stp : Strict (seq (barOp '&') (baseTypeWith k)) := Strict.seq_left (Strict.barOp _) sb
+    simp only [List.map_cons, List.flatten_cons, List.append_assoc, List.cons_append,
+      List.nil_append]
+    have htail : stopB ((ms.map ([' ', '&', ' '] ++ printAtom ·)).flatten ++ tail) = true := by
+      cases ms with
+      | nil => exact hr
+      | cons m2 ms2 => exact stopB_amp _
+    have hstep : seq (barOp '&') (baseTypeWith k)
+        (' ' :: '&' :: ' ' :: (printAtom m ++ ((ms.map ([' ', '&', ' '] ++ printAtom ·)).flatten ++ tail))) =
+        .ok m ((ms.map ([' ', '&', ' '] ++ printAtom ·)).flatten ++ tail) := by
+      rw [seq_ok (barOp_step (Or.inr rfl) (atom_tail_head hf.1 hw.1 _).1)]
+      exact (atom_ok hk hf.1 hw.1 hl1 htail).1
+    exact many0_cons sp hstep (stp.ok hstep) (ih hf.2 hw.2 hl2 tail hr ha)
+
+/-- an intersection-level member (a union member, or a whole type that is not a function type):
+    an atom, the reference form `<'int>`, or a bare intersection; no `&` behind it -/
+theorem member_ok {t : Ty} (hf : t.frag = true) (hw : t.wf = true) (hl : t.lvM ≤ L + 1)
     {tail : Str} (hr : stopB tail = true) (ha : Fails (barOp '&') tail) :
-    intersectionType (baseTypeWith k) (printAtom t ++ tail) = .ok t tail := by
-  unfold intersectionType
-  rw [bind_ok (atom_ok hk hf hw hl hr).1, pmap_ok (many0_of_fails (Fails.seq ha))]
-  simp
+    intersectionType (baseTypeWith k) (printMember t ++ tail) = .ok t tail := by
+  by_cases hi : ∃ ts, t = .inter ts
+  · obtain ⟨ts, rfl⟩ := hi
+    simp only [Ty.frag] at hf
+    simp only [Ty.wf, Bool.and_eq_true, decide_eq_true_eq] at hw
+    simp only [Ty.lvM] at hl
+    cases ts with
+    | nil => simp at hw
+    | cons a as =>
+      cases as with
+      | nil => simp at hw
+      | cons a2 as2 =>
+        simp only [Ty.fragList, Ty.wfList, Bool.and_eq_true] at hf hw
+        have hl1 : a.lvA ≤ L + 1 := Nat.le_trans (Nat.le_max_left _ _) hl
+        have hl2 : Ty.lvAList (a2 :: as2) ≤ L + 1 := Nat.le_trans (Nat.le_max_right _ _) hl
+        have hpm : printMember (.inter (a :: a2 :: as2)) ++ tail =
+            printAtom a ++ (((a2 :: as2).map ([' ', '&', ' '] ++ printAtom ·)).flatten ++ tail) := by
+          show printTy (.inter (a :: a2 :: as2)) ++ tail = _
+          simp only [printTy]
+          rw [printAtomsL_eq, List.map_cons, sepBy_cons, List.map_map, List.append_assoc]
+          rfl
+        rw [hpm]
+        unfold intersectionType
+        rw [bind_ok (atom_ok hk hf.1 hw.2.1 hl1 (by
+            simp only [List.map_cons, List.flatten_cons, List.append_assoc, List.cons_append]
+            exact stopB_amp _)).1,
+          pmap_ok (amp_loop hk (a2 :: as2) (by simp [Ty.fragList, hf.2]) (by simp [Ty.wfList, hw.2.2])
+            hl2 tail hr ha)]
+        simp
+  · by_cases hp : t.isPrimRef = true
+    · cases t with
+      | ident n args =>
+        cases args with
+        | nil =>
+          have hpn : isPrimName n = true := by simpa [Ty.isPrimRef] using hp
+          have hn : isIdentStr n = true := by simpa [Ty.wf, Ty.wfList] using hw
+          have hpm : printMember (.ident n []) ++ tail = '<' :: '\'' :: (n ++ '>' :: tail) := by
+            simp [printMember, memberWrap, printTy, hpn]
+          rw [hpm]
+          unfold intersectionType
+          rw [bind_ok (base_typeParam k hn tail), pmap_ok (many0_of_fails (Fails.seq ha))]
+          simp
+        | cons a as => simp [Ty.isPrimRef] at hp
+      | _ => simp [Ty.isPrimRef] at hp
+    · have hnp : t.isPrimRef = false := by simpa using hp
+      have hla : t.lvA ≤ L + 1 := by
+        cases t with
+        | inter ts => exact absurd ⟨ts, rfl⟩ hi
+        | ident n args =>
+          cases args with
+          | nil =>
+            have : isPrimName n = false := by simpa [Ty.isPrimRef] using hnp
+            simp [Ty.lvA, this, Ty.lvAList]
+          | cons a as => simpa [Ty.lvM] using hl
+        | _ => simpa [Ty.lvM] using hl
+      rw [printMember_eq_atom hf (fun ts e => hi ⟨ts, e⟩) hnp]
+      unfold intersectionType
+      rw [bind_ok (atom_ok hk hf hw hla hr).1, pmap_ok (many0_of_fails (Fails.seq ha))]
+      simp
 
 theorem members_loop : ∀ ms : List Ty, Ty.fragList ms = true → Ty.wfList ms = true →
     Ty.lvAList ms ≤ L + 1 → ∀ rest : Str, stopTd rest = true →
     many0 (seq (barOp '|') (intersectionType (baseTypeWith k)))
-      ((ms.map ([' ', '|', ' '] ++ printAtom ·)).flatten ++ rest) = .ok ms rest := by
+      ((ms.map ([' ', '|', ' '] ++ printMember ·)).flatten ++ rest) = .ok ms rest := by
   intro ms
   induction ms with
   | nil =>
@@ -984,7 +1205,8 @@ theorem members_loop : ∀ ms : List Ty, Ty.fragList ms = true → Ty.wfList ms 
   | cons m ms ih =>
     intro hf hw hl rest hr
     simp only [Ty.fragList, Ty.wfList, Bool.and_eq_true] at hf hw
-    have hl1 : m.lvA ≤ L + 1 := Nat.le_trans (Nat.le_max_left _ _) hl
+    have hl1 : m.lvM ≤ L + 1 :=
+      Nat.le_trans m.lvM_le_lvA (Nat.le_trans (Nat.le_max_left _ _) hl)
     have hl2 : Ty.lvAList ms ≤ L + 1 := Nat.le_trans (Nat.le_max_right _ _) hl
     have sb := baseTypeWith_sound hk.sound
     have sp : Sound (seq (barOp '|') (intersectionType (baseTypeWith k))) :=
@@ -993,16 +1215,16 @@ theorem members_loop : ∀ ms : List Ty, Ty.fragList ms = true → Ty.wfList ms 
       Strict.seq_left (Strict.barOp _) (intersectionType_sound sb)
     simp only [List.map_cons, List.flatten_cons, List.append_assoc, List.cons_append,
       List.nil_append]
-    have htail : stopB ((ms.map ([' ', '|', ' '] ++ printAtom ·)).flatten ++ rest) = true ∧
-        Fails (barOp '&') ((ms.map ([' ', '|', ' '] ++ printAtom ·)).flatten ++ rest) := by
+    have htail : stopB ((ms.map ([' ', '|', ' '] ++ printMember ·)).flatten ++ rest) = true ∧
+        Fails (barOp '&') ((ms.map ([' ', '|', ' '] ++ printMember ·)).flatten ++ rest) := by
       cases ms with
       | nil => exact ⟨stopTd_stopB hr, stopTd_bar hr (Or.inr rfl)⟩
       | cons m2 ms2 => exact ⟨stopB_bar _, amp_fails_bar _⟩
     have hstep : seq (barOp '|') (intersectionType (baseTypeWith k))
-        (' ' :: '|' :: ' ' :: (printAtom m ++ ((ms.map ([' ', '|', ' '] ++ printAtom ·)).flatten ++ rest))) =
-        .ok m ((ms.map ([' ', '|', ' '] ++ printAtom ·)).flatten ++ rest) := by
-      rw [seq_ok (barOp_step (Or.inl rfl) (atom_tail_head hf.1 hw.1 _).1)]
-      exact inter_atom hk hf.1 hw.1 hl1 htail.1 htail.2
+        (' ' :: '|' :: ' ' :: (printMember m ++ ((ms.map ([' ', '|', ' '] ++ printMember ·)).flatten ++ rest))) =
+        .ok m ((ms.map ([' ', '|', ' '] ++ printMember ·)).flatten ++ rest) := by
+      rw [seq_ok (barOp_step (Or.inl rfl) (member_tail_head hf.1 hw.1 _).1)]
+      exact member_ok hk hf.1 hw.1 hl1 htail.1 htail.2
     exact many0_cons sp hstep (stp.ok hstep) (ih hf.2 hw.2 hl2 rest hr)
 
 /-- a bare union `m1 | m2 | …` one level above the knot -/
@@ -1016,32 +1238,23 @@ theorem bare_ok {ts : List Ty} (hf : Ty.fragList ts = true) (hw : Ty.wfList ts =
     | nil => simp at h2
     | cons m2 ms2 =>
       simp only [Ty.fragList, Ty.wfList, Bool.and_eq_true] at hf hw
-      have hl1 : m.lvA ≤ L + 1 := Nat.le_trans (Nat.le_max_left _ _) hl
+      have hl1 : m.lvM ≤ L + 1 :=
+        Nat.le_trans m.lvM_le_lvA (Nat.le_trans (Nat.le_max_left _ _) hl)
       have hl2 : Ty.lvAList (m2 :: ms2) ≤ L + 1 := Nat.le_trans (Nat.le_max_right _ _) hl
       have hpm : printMembers (m :: m2 :: ms2) ++ rest =
-          printAtom m ++ (((m2 :: ms2).map ([' ', '|', ' '] ++ printAtom ·)).flatten ++ rest) := by
-        have hmap : (m2 :: ms2).map printMember = (m2 :: ms2).map printAtom := by
-          have : Ty.fragList (m2 :: ms2) = true := by simp [Ty.fragList, hf.2]
-          clear hl2 hl hw h2
-          generalize (m2 :: ms2) = l at this ⊢
-          induction l with
-          | nil => rfl
-          | cons x xs ih =>
-            simp only [Ty.fragList, Bool.and_eq_true] at this
-            simp [printMember_eq_atom this.1, ih this.2]
-        rw [printMembers, printMembersL_eq, List.map_cons, sepBy_cons, printMember_eq_atom hf.1, hmap,
-          List.map_map, List.append_assoc]
+          printMember m ++ (((m2 :: ms2).map ([' ', '|', ' '] ++ printMember ·)).flatten ++ rest) := by
+        rw [printMembers, printMembersL_eq, List.map_cons, sepBy_cons, List.map_map, List.append_assoc]
         rfl
       rw [hpm]
-      have hh := atom_tail_head hf.1 hw.1
-        (((m2 :: ms2).map ([' ', '|', ' '] ++ printAtom ·)).flatten ++ rest)
+      have hh := member_tail_head hf.1 hw.1
+        (((m2 :: ms2).map ([' ', '|', ' '] ++ printMember ·)).flatten ++ rest)
       unfold typeDefinitionWith
       rw [alt_of_fails (functionType_fails_head k hh.2.1)]
       have hbar : Fails (barOp '|')
-          (printAtom m ++ (((m2 :: ms2).map ([' ', '|', ' '] ++ printAtom ·)).flatten ++ rest)) :=
+          (printMember m ++ (((m2 :: ms2).map ([' ', '|', ' '] ++ printMember ·)).flatten ++ rest)) :=
         Fails.seq_ok (a := ()) (wsc_of_head hh.1) (Fails.seq (pchar_fails_of_head hh.2.2))
       rw [seq_ok (opt_of_fails hbar)]
-      have hfirst := inter_atom hk hf.1 hw.1 hl1 (tail := ((m2 :: ms2).map ([' ', '|', ' '] ++ printAtom ·)).flatten ++ rest)
+      have hfirst := member_ok hk hf.1 hw.1 hl1 (tail := ((m2 :: ms2).map ([' ', '|', ' '] ++ printMember ·)).flatten ++ rest)
         (by simp only [List.map_cons, List.flatten_cons, List.append_assoc, List.cons_append]; exact stopB_bar _)
         (by simp only [List.map_cons, List.flatten_cons, List.append_assoc, List.cons_append]; exact amp_fails_bar _)
       rw [bind_ok hfirst,
@@ -1081,17 +1294,18 @@ theorem td_ok {t : Ty} (hf : t.frag = true) (hw : t.wf = true) (hl : t.lvT ≤ L
       simp only [isMultispace, Bool.or_eq_false_iff, decide_eq_false_iff_not] at hws
       simp [hws.1.1.1, hws.1.1.2, hws.1.2, hws.2]
     rw [seq_ok harrow, pmap_ok (atom_ok hk hf.2 hw.2 hlo hrb).2]
-  · have hpa : printTy t = printAtom t := (printAtom_eq_printTy hf hfn).symm
-    have hlv : t.lvA ≤ L + 1 := by
-      cases t <;> simp_all [Ty.lvT]
-    rw [hpa]
-    have hh := atom_tail_head hf hw rest
+  · have hlv : t.lvM ≤ L + 1 := by
+      cases t with
+      | func i o => exact absurd ⟨i, o, rfl⟩ hfn
+      | _ => simpa [Ty.lvT] using hl
+    rw [printTy_eq_member hfn]
+    have hh := member_tail_head hf hw rest
     unfold typeDefinitionWith
     rw [alt_of_fails (functionType_fails_head k hh.2.1)]
-    have hbar : Fails (barOp '|') (printAtom t ++ rest) :=
+    have hbar : Fails (barOp '|') (printMember t ++ rest) :=
       Fails.seq_ok (a := ()) (wsc_of_head hh.1) (Fails.seq (pchar_fails_of_head hh.2.2))
     rw [seq_ok (opt_of_fails hbar),
-      bind_ok (inter_atom hk hf hw hlv hrb (stopTd_bar hr (Or.inr rfl))),
+      bind_ok (member_ok hk hf hw hlv hrb (stopTd_bar hr (Or.inr rfl))),
       pmap_ok (many0_of_fails (Fails.seq (stopTd_bar hr (Or.inl rfl))))]
     simp
 
@@ -1136,17 +1350,31 @@ theorem GoodK.step {k : Knot} {L : Nat} (hk : GoodK k L) : GoodK k.step (L + 1) 
   bt := fun _ hf hw hl _ hr => (atom_ok hk hf hw hl hr).1
   bare := fun _ hf hw h2 hl _ hr => bare_ok hk hf hw h2 hl hr
 
-theorem lvA_pos (t : Ty) : 1 ≤ t.lvA := by cases t <;> simp [Ty.lvA]
+theorem lvA_pos (t : Ty) : 1 ≤ t.lvA := by
+  cases t with
+  | ident n args => simp only [Ty.lvA]; split <;> omega
+  | _ => simp [Ty.lvA]
+
+theorem lvT_pos {t : Ty} (hw : t.wf = true) : 1 ≤ t.lvT := by
+  cases t with
+  | func i o => simp only [Ty.lvT]; have := lvA_pos i; omega
+  | inter ts =>
+    simp only [Ty.wf, Bool.and_eq_true, decide_eq_true_eq] at hw
+    cases ts with
+    | nil => simp at hw
+    | cons a as => simp only [Ty.lvT, Ty.lvM, Ty.lvAList]; have := lvA_pos a; omega
+  | ident n args =>
+    cases args with
+    | nil => simp [Ty.lvT, Ty.lvM]
+    | cons a as => simp only [Ty.lvT, Ty.lvM]; exact lvA_pos _
+  | _ => simp only [Ty.lvT, Ty.lvM]; exact lvA_pos _
 
 /-- the knot with fuel `L + 1` reads back everything of nesting level `≤ L` -/
 theorem knot_good (L : Nat) : GoodK (knot (L + 1)) L := by
   induction L with
   | zero =>
     refine ⟨knot_sound 1, KClose.step (knot 0), ?_, ?_, ?_⟩
-    · intro t _ _ hl
-      cases t with
-      | func i o => simp only [Ty.lvT] at hl; have := lvA_pos i; omega
-      | _ => simp [Ty.lvT, Ty.lvA] at hl
+    · intro t _ hw hl; have := lvT_pos hw; omega
     · intro t _ _ hl; have := lvA_pos t; omega
     · intro ts _ _ h2 hl
       cases ts with
